@@ -438,9 +438,16 @@ pub fn cases(tier: Tier) -> Vec<Case> {
     v
 }
 
-pub fn run(tier: Tier, _part: bool) -> i32 {
-    let mut rep = Report::new("C04", tier, "exploration");
-    let cs = cases(tier);
+pub fn run(tier: Tier, part_only: bool) -> i32 {
+    super::run_with_inproc("C04", tier, part_only, "exploration", &run_all)
+}
+
+fn run_all(rep: &mut Report, tier: Tier) {
+    let mut cs = cases(tier);
+    if cfg!(feature = "inproc") {
+        // in-process channels do not cross fork()
+        cs.retain(|c| !matches!(c, Case::Chain(ch) if ch.hops.contains(&Hop::Proc)));
+    }
     let mut n = 0u64;
     let mut nontrivial = 0u64;
     let mut fails = Vec::new();
@@ -468,10 +475,10 @@ pub fn run(tier: Tier, _part: bool) -> i32 {
     rep.sample(serde_json::to_value(&cs[cs.len() / 3]).unwrap());
     rep.sample(serde_json::to_value(&cs[cs.len() - 1]).unwrap());
     rep.assume("the handle a receiver was sent from is never used afterwards (unspecified)");
-    rep.finish()
 }
 
 pub fn replay(v: &Value) -> i32 {
+    let v = if v.get("variant").is_some() { &v["case"] } else { v };
     let Ok(c) = serde_json::from_value::<Case>(v.clone()) else { return 2 };
     for r in 0..2 {
         let out = crate::exec::run_one(&cfg_of(&c), 120.0, &|| body(&c));
